@@ -292,9 +292,12 @@ func (e *Engine) expectSeq(s *slot, op Op, method string) (want []*Entry, define
 		}
 		for _, en := range s.model.Sorted() {
 			if bytes.HasPrefix(en.Raw, op.K) {
-				// C04 precondition on collation trees (contraction-free text): the primary
-				// weights of a key that starts with p start with the primary weights of p
+				// The library descends along the primary weights of p. A stored key that starts with p
+				// but whose primary weights do not start with those of p can be missed: that is
+				// contraction text (which C04 leaves out) or known finding KF3 (combining marks that
+				// the collator reorders across the end of p). Not asserted, counted.
 				if isColl && !bytes.HasPrefix(ck.PrimaryKey(en.Raw), pk) {
+					e.fact("excluded_KF3_or_contraction")
 					return nil, false
 				}
 				out = append(out, en)
